@@ -171,7 +171,7 @@ func c16Sizes(tier string) (units, per int) {
 	if tier == "thorough" {
 		return 3000, 60
 	}
-	return 160, 24
+	return 400, 48
 }
 
 func c16Observe(sp lib.Spec) (string, lib.Obs) {
